@@ -44,6 +44,9 @@ def erase : AList κ υ → κ → AList κ υ
   | (k, w) :: r, x => if k = x then r else (k, w) :: erase r x
 
 def keys (l : AList κ υ) : List κ := l.map (·.1)
+
+@[simp] theorem keys_nil : keys ([] : AList κ υ) = [] := rfl
+@[simp] theorem keys_cons (a : κ) (b : υ) (t : AList κ υ) : keys ((a, b) :: t) = a :: keys t := rfl
 end AList
 
 /-- Python exception classes that matter here. -/
@@ -117,13 +120,10 @@ def scan (k : Res) : Vec → Nat → Vec × List (Res × Nat)
   | (r, q) :: rest, rem =>
     if r.matches k then
       if q ≥ rem then ((r, q - rem) :: rest, [(r, rem)])
-      else
-        let t := scan k rest (rem - q)
-        if q > 0 then ((r, 0) :: t.1, (r, q) :: t.2) else ((r, q) :: t.1, t.2)
+      else if q > 0 then ((r, 0) :: (scan k rest (rem - q)).1, (r, q) :: (scan k rest (rem - q)).2)
+      else ((r, q) :: (scan k rest (rem - q)).1, (scan k rest (rem - q)).2)
     else if rem = 0 then ((r, q) :: rest, [])
-    else
-      let t := scan k rest rem
-      ((r, q) :: t.1, t.2)
+    else ((r, q) :: (scan k rest rem).1, (scan k rest rem).2)
 
 /-- `allocs[c]` is touched (created empty if absent), then every recorded pair is appended. -/
 def record (a : AList Comp (List (Res × Nat))) (c : Comp) (rec : List (Res × Nat)) :
@@ -276,12 +276,11 @@ def placeTask (w : Worker) (t : Nat) (s : Strategy) : Worker × Outcome :=
     | none =>
       if s.batchSize < 1 then (w, .raised .valueError)
       else
-        let bt := Comp.batch w.fresh
-        let w := { w with fresh := w.fresh + 1 }
-        match w.res.allocateMultiple s.req bt with
+        -- the placeholder task created for the batch (`fresh` only advances when it is kept)
+        match w.res.allocateMultiple s.req (.batch w.fresh) with
         | (r, .ok) =>
-          ({ w with res := r, batches := w.batches.set s.sid [t],
-                    placed := w.placed.set t s, batchTask := w.batchTask.set s.sid bt }, .ok)
+          ({ w with res := r, batches := w.batches.set s.sid [t], placed := w.placed.set t s,
+                    batchTask := w.batchTask.set s.sid (.batch w.fresh), fresh := w.fresh + 1 }, .ok)
         | (r, e) => ({ w with res := r }, e)
     | some members =>
       if (members.length : Int) + 1 > s.batchSize then (w, .raised .runtimeError)
